@@ -253,10 +253,25 @@ func bucket(n int) string {
 	return "200+"
 }
 
+// quiet: runCase is being re-executed by the minimiser; nothing is recorded as evidence.
+var quiet bool
+
+func evClass(name string) {
+	if !quiet {
+		hx.E.Class(name, 1)
+	}
+}
+
+func evExclude(reason string) {
+	if !quiet {
+		hx.E.Exclude(reason)
+	}
+}
+
 func runCase(c Case) *hx.Failure {
 	in := c.input()
 	if len(in) > maxInput {
-		hx.E.Exclude("beyond-size-bound")
+		evExclude("beyond-size-bound")
 		return nil
 	}
 	defer wdEnd()
@@ -273,7 +288,7 @@ func runCase(c Case) *hx.Failure {
 		buf = buf[:runtime.Stack(buf, true)]
 		if leak = parserGoroutines(string(buf), false); leak == "" {
 			// something else appeared (not a goroutine of the parser blocked for good): not a verdict
-			hx.E.Class("goroutines.foreign_or_transient_increase", 1)
+			evClass("goroutines.foreign_or_transient_increase")
 		}
 	}
 
@@ -348,8 +363,10 @@ func runCase(c Case) *hx.Failure {
 			}
 		}
 	}
-	hx.E.Case(nontrivial, in, classes...)
-	if nontrivial {
+	if !quiet {
+		hx.E.Case(nontrivial, in, classes...)
+	}
+	if nontrivial && !quiet {
 		hx.E.Sample(in, map[string]interface{}{"kind": c.Kind, "input": clip(in, 240), "tokens": ntok, "outcome": outcome, "ops": c.Ops})
 	}
 
@@ -403,16 +420,16 @@ func runCase(c Case) *hx.Failure {
 				return f
 			}
 			if verr != nil {
-				hx.E.Class("validate.error", 1)
+				evClass("validate.error")
 			} else {
-				hx.E.Class("validate.ok", 1)
+				evClass("validate.ok")
 				if s := wellFormed(rtree, true); s != nil {
 					return hx.Failf(s.sig, "ParseWithRuntime(%q) + Validate() returned no error for a tree which evaluation cannot walk: %s", clip(in, 300), s.msg)
 				}
 			}
 		} else {
 			// same input, different verdict: purity is C13's subject, only counted here
-			hx.E.Class("parse_with_runtime_differs", 1)
+			evClass("parse_with_runtime_differs")
 		}
 	}
 	if leak != "" {
@@ -453,7 +470,7 @@ func checkError(in string, err error, pe *parser.Error) *hx.Failure {
 		if pe.Type != parser.ErrUnexpectedEnd {
 			return hx.Failf("error-unpositioned:"+tn, "Parse(%q) returned an unpositioned error: %v", clip(in, 300), err)
 		}
-		hx.E.Class("error.unpositioned_unexpected_end", 1)
+		evClass("error.unpositioned_unexpected_end")
 		return nil
 	}
 	if pe.Line < 1 || pe.Line > lines {
@@ -461,7 +478,7 @@ func checkError(in string, err error, pe *parser.Error) *hx.Failure {
 	}
 	if pe.Type == parser.ErrUnexpectedEnd && pe.Detail == "" {
 		if pe.Pos < 1 {
-			hx.E.Class("error.eof_token_column_below_1(C18)", 1)
+			evClass("error.eof_token_column_below_1(C18)")
 		}
 		return nil
 	}
@@ -1029,6 +1046,134 @@ var directed = []string{
 
 func TestRegress(t *testing.T) { hx.Regress(t, runCase) }
 
+// ---------------------------------------------------------------------------------------
+// minimisation of a failing case. The generated tiers hand *Case to the framework; when a
+// case fails, runMin replaces its content by a smaller input with the SAME failure
+// signature (delta debugging over tokens, then bytes; bounded by a number of trials, not by
+// time) so that the replay file and the VIOLATION line show a small reproduction. The
+// verdict itself always comes from runCase on the original case.
+
+type minimal struct {
+	c Case
+	f *hx.Failure
+}
+
+var minimised = map[string]*minimal{} // per failure signature: the reproduction found first in this process
+
+func runMin(c *Case) *hx.Failure {
+	f := runCase(*c)
+	if f == nil || strings.HasPrefix(f.Sig, "hang") {
+		return f
+	}
+	if m, ok := minimised[f.Sig]; ok {
+		// rapid re-runs failing cases while it shrinks: minimise once per signature, then reuse
+		if m != nil && len(m.c.input()) < len(c.input()) {
+			*c = m.c
+			return m.f
+		}
+		return f
+	}
+	minimised[f.Sig] = nil
+	quiet = true
+	defer func() { quiet = false }()
+	budget := 8000
+	if f.Sig == "goroutine-leak" {
+		budget = 300 // every failing trial waits the full polling bound
+	}
+	var last *hx.Failure
+	fails := func(s string) bool {
+		if budget <= 0 {
+			return false
+		}
+		budget--
+		g := runCase(mkCase(c.Kind, s))
+		if g != nil && g.Sig == f.Sig {
+			last = g
+			return true
+		}
+		return false
+	}
+	ddmin := func(parts []string) []string {
+		for chunk := (len(parts) + 1) / 2; chunk >= 1 && budget > 0; chunk /= 2 {
+			for again := true; again && budget > 0; {
+				again = false
+				for i := 0; i < len(parts) && len(parts) > 1; {
+					e := i + chunk
+					if e > len(parts) {
+						e = len(parts)
+					}
+					cand := append(append([]string{}, parts[:i]...), parts[e:]...)
+					if fails(strings.Join(cand, "")) {
+						parts = cand
+						again = chunk == 1 // single elements: repeat until a fixed point
+					} else {
+						i += chunk
+					}
+				}
+			}
+		}
+		return parts
+	}
+	// removal of balanced bracket spans (whole blocks / argument lists), which ddmin's aligned chunks miss
+	spans := func(parts []string) []string {
+		closer := map[string]string{"{": "}", "(": ")", "[": "]"}
+		for changed := true; changed && budget > 0; {
+			changed = false
+			for i := 0; i < len(parts) && budget > 0; i++ {
+				open := strings.TrimSpace(parts[i])
+				cl, ok := closer[open]
+				if !ok {
+					continue
+				}
+				depth, j := 0, -1
+				for k := i; k < len(parts); k++ {
+					if t := strings.TrimSpace(parts[k]); t == open {
+						depth++
+					} else if t == cl {
+						if depth--; depth == 0 {
+							j = k
+							break
+						}
+					}
+				}
+				if j < 0 {
+					continue
+				}
+				for _, cut := range [][2]int{{i, j + 1}, {i + 1, j}} {
+					if cut[1]-cut[0] < 2 {
+						continue
+					}
+					cand := append(append([]string{}, parts[:cut[0]]...), parts[cut[1]:]...)
+					if fails(strings.Join(cand, "")) {
+						parts, changed = cand, true
+						break
+					}
+				}
+			}
+		}
+		return parts
+	}
+	best := c.input()
+	for round := 0; round < 2; round++ {
+		if tk := tokenise(best); tk != nil {
+			best = strings.Join(ddmin(spans(ddmin(append([]string{tk.prefix}, tk.segs...)))), "")
+		}
+	}
+	if len(best) <= 400 {
+		best = strings.Join(ddmin(strings.Split(best, "")), "")
+	}
+	if last != nil && len(best) < len(c.input()) {
+		m := mkCase(c.Kind, best)
+		m.Base, m.Ops = c.Base, append(append([]string{}, c.Ops...), "minimised")
+		minimised[f.Sig] = &minimal{m, last}
+		*c = m
+		return last
+	}
+	return f
+}
+
+func ptr(c Case) *Case { return &c }
+
 func soupLen() int {
 	if hx.Thorough() {
 		return 3
@@ -1044,18 +1189,18 @@ func strayLimit() int {
 }
 
 func TestExhaustive(t *testing.T) {
-	hx.Enumerate(t, "directed", func(yield func(Case) bool) {
+	hx.Enumerate(t, "directed", func(yield func(*Case) bool) {
 		for _, s := range directed {
-			if !yield(mkCase("directed", s)) {
+			if !yield(ptr(mkCase("directed", s))) {
 				return
 			}
 		}
-	}, runCase)
+	}, runMin)
 	if t.Failed() {
 		return
 	}
 	// every truncation of every corpus program at a token boundary
-	hx.Enumerate(t, "truncations", func(yield func(Case) bool) {
+	hx.Enumerate(t, "truncations", func(yield func(*Case) bool) {
 		for ci, src := range corpus {
 			tk := tokenise(src)
 			if tk == nil {
@@ -1064,29 +1209,29 @@ func TestExhaustive(t *testing.T) {
 			for k := 0; k < len(tk.segs); k++ { // k = number of tokens kept (k == len is the program itself)
 				c := mkCase("mut", tk.join(tk.segs[:k]))
 				c.Base, c.Ops = fmt.Sprintf("corpus[%d]", ci), []string{fmt.Sprintf("trunc@%d", k)}
-				if !yield(c) {
+				if !yield(&c) {
 					return
 				}
 				// same cut without the trailing white space (the token ends the input)
 				if t := strings.TrimRight(c.input(), " \t\r\n"); k > 0 && t != c.input() {
 					c2 := mkCase("mut", t)
 					c2.Base, c2.Ops = c.Base, []string{fmt.Sprintf("trunc@%d,trim", k)}
-					if !yield(c2) {
+					if !yield(&c2) {
 						return
 					}
 				}
 			}
-			if !yield(Case{Kind: "directed", Src: src, Base: fmt.Sprintf("corpus[%d]", ci)}) {
+			if !yield(&Case{Kind: "directed", Src: src, Base: fmt.Sprintf("corpus[%d]", ci)}) {
 				return
 			}
 		}
-	}, runCase)
+	}, runMin)
 	if t.Failed() {
 		return
 	}
 	// a stray ; ) } ] at every token boundary of the smaller corpus programs
 	lim := strayLimit()
-	hx.Enumerate(t, "strays", func(yield func(Case) bool) {
+	hx.Enumerate(t, "strays", func(yield func(*Case) bool) {
 		for ci, src := range corpus {
 			tk := tokenise(src)
 			if tk == nil || len(tk.segs) > lim {
@@ -1097,13 +1242,13 @@ func TestExhaustive(t *testing.T) {
 					segs := append(append(append([]string{}, tk.segs[:k]...), s+" "), tk.segs[k:]...)
 					c := mkCase("mut", tk.join(segs))
 					c.Base, c.Ops = fmt.Sprintf("corpus[%d]", ci), []string{fmt.Sprintf("stray@%d:%s", k, s)}
-					if !yield(c) {
+					if !yield(&c) {
 						return
 					}
 				}
 			}
 		}
-	}, runCase)
+	}, runMin)
 	if t.Failed() {
 		return
 	}
@@ -1111,7 +1256,7 @@ func TestExhaustive(t *testing.T) {
 	// identifier, number, string and one lexically broken piece
 	voc := append(append([]string{}, vocabFixed...), "a", "1", `"s"`, `"`)
 	n := soupLen()
-	hx.Enumerate(t, "soup", func(yield func(Case) bool) {
+	hx.Enumerate(t, "soup", func(yield func(*Case) bool) {
 		idx := make([]int, 0, n)
 		var rec func() bool
 		rec = func() bool {
@@ -1120,7 +1265,7 @@ func TestExhaustive(t *testing.T) {
 				for i, k := range idx {
 					parts[i] = voc[k]
 				}
-				if !yield(mkCase("soup", strings.Join(parts, " "))) {
+				if !yield(ptr(mkCase("soup", strings.Join(parts, " ")))) {
 					return false
 				}
 			}
@@ -1137,10 +1282,12 @@ func TestExhaustive(t *testing.T) {
 			return true
 		}
 		rec()
-	}, runCase)
+	}, runMin)
 	hx.E.Exhaustive("truncations", map[string]interface{}{"corpus_programs": len(corpus), "cut": "every token boundary, with and without trailing white space"})
 	hx.E.Exhaustive("strays", map[string]interface{}{"terminators": strays, "programs_with_at_most_tokens": lim, "position": "every token boundary"})
 	hx.E.Exhaustive("soup", map[string]interface{}{"vocabulary": len(voc), "max_len": n, "separator": "one space"})
 }
 
-func TestProp(t *testing.T) { hx.Check(t, drawCase, runCase) }
+func TestProp(t *testing.T) {
+	hx.Check(t, func(rt *rapid.T) *Case { return ptr(drawCase(rt)) }, runMin)
+}
